@@ -231,7 +231,7 @@ def startCall (cfg : Cfg) (th : Th) (call : Call) : Th :=
   | .wcommit n => enterWfs cfg { th with slice := none } (min n th.filled)
   | .wfill =>
     match th.slice with
-    | some (start, len) => th.goto (.f0 start len 0)
+    | some (start, len) => { th with filled := 0 }.goto (.f0 start len 0)
     | none => th.ret { err := .nouse }
   | .read n => { th with view := .none, pending := [] }.goto (.r60 n)
   | .peek n =>
